@@ -52,7 +52,9 @@ func dateInstants() []int64 {
 		1577934245, 1437145445, 1 << 40, -(1 << 40), 1 << 55, -(1 << 55), 1<<62 - 1, 1 << 62, -(1 << 62), 1<<62 + 1, -(1 << 62) - 1,
 		9223372036, 9223372037, -9223372036, -9223372037, // UnixNano wraps from here on
 	}
-	d := func(y int, m time.Month, day, h, mi, s int) int64 { return time.Date(y, m, day, h, mi, s, 0, time.UTC).Unix() }
+	d := func(y int, m time.Month, day, h, mi, s int) int64 {
+		return time.Date(y, m, day, h, mi, s, 0, time.UTC).Unix()
+	}
 	// every weekday (a week in June 2021), every month (the 15th at noon and at midnight, 2021 and the leap year 2024)
 	for i := 0; i < 7; i++ {
 		out = append(out, d(2021, 6, 13+i, 0, 0, 0), d(2021, 6, 13+i, 23, 59, 59))
@@ -405,7 +407,7 @@ func dateTemplateFamily() []tmplCase {
 	for _, u := range ts {
 		t := VTime(u)
 		for _, s := range srcs {
-			out = append(out, tmplCase{s, map[string]*V{"t": t, "f": VStr("%e.%-m.%y %l%P"), "ts": VAnys(t, VTime(0), VNil(), VTime(86400 * 59)), "m": VStrMap(SKV("t", t)), "p": VPtr(t)}})
+			out = append(out, tmplCase{s, map[string]*V{"t": t, "f": VStr("%e.%-m.%y %l%P"), "ts": VAnys(t, VTime(0), VNil(), VTime(86400*59)), "m": VStrMap(SKV("t", t)), "p": VPtr(t)}})
 		}
 	}
 	for _, s := range []string{"2020-01-02", "2020-02-30", "2020-01-02 03:04:05", "2006-01-02T15:04:05Z", "2020-01-02 03:04", "20200102T030405Z", "0000-01-01", "9999-12-31 23:59:59", "March 14, 2016", "not a date", ""} {
